@@ -689,7 +689,7 @@ func aggregateArgumentOrder(c *eng.Ctx) {
 	}
 	isParam := func(name string) func(ssa.Value) bool {
 		return func(v ssa.Value) bool {
-			return eng.DependsOn(v, func(x ssa.Value) bool { pr, ok := x.(*ssa.Parameter); return ok && pr.Name() == name })
+			return eng.DependsOn(v, func(x ssa.Value) bool { pr, ok := x.(*ssa.Parameter); return ok && eng.ParamName(pr) == name })
 		}
 	}
 	loadOfParamSlice := func(name string) func(ssa.Value) bool {
@@ -717,6 +717,34 @@ func aggregateArgumentOrder(c *eng.Ctx) {
 			return d == name || strings.HasSuffix(d, ":"+name) || loadOfParamSlice(name)(v)
 		}
 	}
+	// the slot the result is written back to: x[i] in  x[i] = Aggregate(x[i], v)  (whatever the slice is called)
+	loadOfOverwrittenSlot := func(v ssa.Value) bool {
+		u, ok := eng.Unwrap(v).(*ssa.UnOp)
+		if !ok || u.Op != token.MUL {
+			return false
+		}
+		ia, ok := u.X.(*ssa.IndexAddr)
+		if !ok || ia.Parent() == nil {
+			return false
+		}
+		for _, b := range ia.Parent().Blocks {
+			for _, in := range b.Instrs {
+				st, ok := in.(*ssa.Store)
+				if !ok {
+					continue
+				}
+				ib, ok := st.Addr.(*ssa.IndexAddr)
+				if !ok || p.Desc(ib.X) != p.Desc(ia.X) || p.Desc(ib.Index) != p.Desc(ia.Index) {
+					continue
+				}
+				if cl, isC := eng.Unwrap(st.Val).(*ssa.Call); isC && calleeName(cl) == "Aggregate" {
+					return true
+				}
+			}
+		}
+		return false
+	}
+	_ = loadOfNamedSlice
 	type role struct {
 		stored, incoming func(ssa.Value) bool
 		what             string
@@ -724,7 +752,7 @@ func aggregateArgumentOrder(c *eng.Ctx) {
 	table := map[string]role{
 		"tsdb/memdb.write":                            {fromCall("BytesToFloat64"), isParam("value"), "stored = the slot's value in the write buffer, incoming = the written value"},
 		"tsdb/memdb.merge":                            {fromCall("getOldFloatValue"), fromCall("getCurrentValue"), "stored = the compressed (earlier) value, incoming = the write buffer's (later) value"},
-		"aggregation.DownSamplingMultiSeriesInto":     {loadOfNamedSlice("targetValues"), fromCall("Value"), "stored = the target slot, incoming = the decoded source value"},
+		"aggregation.DownSamplingMultiSeriesInto":     {loadOfOverwrittenSlot, fromCall("Value"), "stored = the target slot, incoming = the decoded source value"},
 		"aggregation.fieldAggregator.AggregateBySlot": {fromCall("GetValue"), isParam("value"), "stored = the aggregator's slot, incoming = the value handed in"},
 		"aggregation.fieldAggregator.aggregateBySlot": {fromCall("GetValue"), isParam("value"), "stored = the aggregator's slot, incoming = the value handed in"},
 	}
